@@ -64,6 +64,22 @@ def carried_fn(n):     # the same with a function carried along and called at th
     return (f"{enc(n)} (ㄱㅇㄱ ㄴ ㄷㅎㄷ ㅎ) ((ㅂ ㄴㅇㄱ ㅎㄴ) ((ㄱㅇㄱ ㄴㄱ ㄷㅎㄷ) ㄴㅇㄱ ㄱㅇ ㅎㄷ) {COND} ㅎㄷ ㅎ) ㅎㄷ", "6")
 
 
+def toggle(n):         # loop(n, s) = (n == 0 or s == 99) ? s : loop(n-1, T(s)),  T(s) = (s == a) ? b : a  — the helper tests its
+    # argument and hands back an *already evaluated* object (seeded change S05g: such a call expression lost its memo)
+    helper = "ㄴ ㅇㄷ ㄱ ㅇㄷ ㄱ ㅇㄱ ㄱ ㅇㄷ ㄴ ㅎㄷ ㅎㄷ ㅎ"
+    rec = f"ㄱ ㅇㄱ ㄴㄱ ㄷ ㅎㄷ  ㄴ ㅇㄱ {helper} ㅎㄴ  ㄱ ㅇ ㅎㄷ"
+    cond = f"ㄱ ㅇㄱ ㄱ ㄴ ㅎㄷ  ㄴ ㅇㄱ {enc(99)} ㄴ ㅎㄷ  ㄷ ㅎㄷ"
+    loop = f"ㄴ ㅇㄱ  {rec}  {cond} ㅎㄷ ㅎ"
+    return f"ㄴ ㄷ {enc(n)} ㄱ ㅇㄱ {loop} ㅎㄷ ㅎ ㅎㄷ", str(1 if n % 2 == 0 else 2)
+
+
+def clamp(n):          # loop(n, m) = n == 0 ? m : loop(n-1, (m < cap) ? m : cap): the state is handed back unchanged by a helper
+    helper = "ㄱ ㅇㄱ  ㄱ ㅇㄷ  ㄱ ㅇㄱ ㄱ ㅇㄷ ㅈ ㅎㄷ  ㅎㄷ ㅎ"
+    rec = f"ㄱ ㅇㄱ ㄴㄱ ㄷ ㅎㄷ  ㄴ ㅇㄱ {helper} ㅎㄴ  ㄱ ㅇ ㅎㄷ"
+    loop = f"ㄴ ㅇㄱ  {rec}  (ㄴ ㅇㄱ ㄴ ㅇㄱ ㄴ ㅎㄷ) (ㄱ ㅇㄱ ㄱ ㄴ ㅎㄷ) ㄱ ㅎㄷ ㅎㄷ ㅎ"     # the test forces m in every round
+    return f"{enc(1000)} {enc(n)} ㄱ {loop} ㅎㄷ ㅎ ㅎㄴ", "0"
+
+
 def nontail(n):        # s(n) = n == 0 ? 0 : n + s(n-1)   (frames grow with n)
     return (f"{enc(n)} ㄱ (ㄱㅇㄱ ((ㄱㅇㄱ ㄴㄱ ㄷㅎㄷ) ㄱㅇ ㅎㄴ) ㄷㅎㄷ) {COND} ㅎㄷ ㅎ ㅎㄴ", str(n * (n + 1) // 2))
 
@@ -78,7 +94,8 @@ def nestfmt(n):        # printing a list nested n deep (KNOWN FINDING for large 
 
 TAIL = {'countdown': countdown, 'accum': accum, 'mutual': mutual, 'viabool': viabool, 'rbind': rbind,
         'viahelper': viahelper, 'viaid': viaid, 'viathunk': viathunk, 'viatry': viatry,
-        'boolflag': boolflag, 'nilstate': nilstate, 'carried': carried, 'carried-fn': carried_fn}
+        'boolflag': boolflag, 'nilstate': nilstate, 'carried': carried, 'carried-fn': carried_fn,
+        'toggle': toggle, 'clamp': clamp}
 
 
 @monitor('c05_value')
